@@ -63,6 +63,9 @@ the applied one) -/
 theorem apply_gate (s : St) (m : Manifest) (frm : Option String) (h : applyDecision s m = .go frm) :
     ∀ b ∈ Graph.deps s.graph m.id, RelationOk s.invalid s.mgr .apply (dryOf s) b := by
   unfold applyDecision at h
+  by_cases hinfo : m.id.kind ∈ s.run.failInfo
+  · simp [hinfo] at h
+  rw [if_neg hinfo] at h
   cases hp : policyApply s m.id with
   | none => simp [hp] at h
   | some o =>
